@@ -707,6 +707,16 @@ class TraitCompound(TraitHandler):
                 return validate(object, name, value)
             except TraitError:
                 pass
+        # A CTrait that copied our fast validator before a lazily named
+        # Instance alternative was resolved (BaseInstance.resolve_class only
+        # updates the one trait it can find) still sends values for that
+        # alternative here, although set_validate() has since moved it out of
+        # 'slow_validates'. Give those alternatives a chance before failing.
+        for validate in self.validates:
+            try:
+                return validate(object, name, value)
+            except TraitError:
+                pass
         self.error(object, name, value)
 
     def full_info(self, object, name, value):
